@@ -133,7 +133,7 @@ def run_encrypt(step, d, outdir, key, route, holder=None):
         with open(os.path.join(kd, kname.rsplit(".", 1)[0] + ".bin"), "wb") as fh:
             fh.write(bytes(b ^ 0x5A for b in key))
     if step["sub"] == "encrypt":
-        pt = pbytes(step["size"], step["salt"])
+        pt = shaped_plaintext(step["size"], step["salt"], step.get("shape", "rand"))
         fw = os.path.join(d, "fw.bin")
         with open(fw, "wb") as fh:
             fh.write(pt)
@@ -161,6 +161,8 @@ def run_encrypt(step, d, outdir, key, route, holder=None):
         return {"plaintext": pt}
     blob = pbytes(28 + step["size"], step["salt"])
     ek = pbytes(step["eklen"], step["salt"] + 1)
+    if step.get("ek_first") is not None and ek:
+        ek = bytes([step["ek_first"]]) + ek[1:]  # wrapped keys are arbitrary bytes: also ones that begin like a CBOR null / map / string
     ef, ekf = os.path.join(d, "ef.bin"), os.path.join(d, "ek.bin")
     with open(ef, "wb") as fh:
         fh.write(blob)
@@ -184,6 +186,29 @@ def run_encrypt(step, d, outdir, key, route, holder=None):
         cmd_encrypt.main(encrypt_subcommand="generate-info", encrypted_firmware=ef, encrypted_key=ekf, key_id=step["kid"], kw_alg=step["kw"], output_dir=outdir,
                          encrypt_script=sut.ENCRYPT_SCRIPT())
     return {"blob": blob, "ek": ek}
+
+
+def shaped_plaintext(size, salt, shape):
+    """The firmware file is opaque: pseudo-random bytes, or bytes that happen to be a well-formed Intel HEX text, a CBOR item, text."""
+    if shape == "intel-hex" and size >= 60:
+        # a valid Intel HEX file of exactly `size` characters is hard to hit; produce the largest valid one not longer than size and pad with
+        # further complete records - the size actually used is len(result)
+        lines = [":020000040E10DC"]
+        data = pbytes(size, salt)
+        addr = 0
+        while sum(len(x) + 1 for x in lines) + 44 + 12 <= size:
+            chunk = data[addr:addr + 16].ljust(16, b"\xff")
+            rec = bytes([16, (addr >> 8) & 0xFF, addr & 0xFF, 0]) + chunk
+            lines.append(":" + (rec + bytes([(-sum(rec)) & 0xFF])).hex().upper())
+            addr += 16
+        lines.append(":00000001FF")
+        return ("\n".join(lines) + "\n").encode()
+    if shape == "cbor-envelope" and size >= 16:
+        body = pbytes(size - 10, salt)
+        return (b"\xd8\x6b\xa2\x02\x41\x00\x03\x5a" + len(body).to_bytes(4, "big") + body)[:size]
+    if shape == "text":
+        return (("line %d of a text file\r\n" % salt) * (size // 10 + 1)).encode()[:size]
+    return pbytes(size, salt)
 
 
 def _encryptor(holder):
@@ -280,6 +305,9 @@ def judge(case, acc, ctx):
                 classes.append("key-name-with-dot")
             if step["sub"] == "encrypt":
                 classes.append(key_class(key))
+                classes.append(f"plaintext:{step.get('shape', 'rand')}")
+            elif step.get("ek_first") is not None and step["eklen"]:
+                classes.append(f"wrapped-key-first-byte:{step['ek_first']:02x}")
             if route == "lib" and i > 0:
                 prev = case["steps"][i - 1]
                 classes.append(f"encryptor-reused:{prev.get('kw', 'direct')}->{step.get('kw', 'direct')}")
@@ -318,10 +346,10 @@ def step_s():
 
     size = st.one_of(st.sampled_from(SIZES), st.integers(0, 300), st.integers(0, 20000))
     kid = st.one_of(st.sampled_from(KIDS), st.sampled_from(CLI_KIDS), st.integers(0, 2**32 - 1), st.integers(10**7, 10**8 - 1))
-    enc = st.fixed_dictionaries({"sub": st.just("encrypt"), "size": size, "salt": st.integers(0, 10**6), "kid": kid, "kid_spelling": st.sampled_from(["dec", "dec", "hex"]), "hash": st.sampled_from(list(HASHES)),
+    enc = st.fixed_dictionaries({"sub": st.just("encrypt"), "size": size, "salt": st.integers(0, 10**6), "kid": kid, "kid_spelling": st.sampled_from(["dec", "dec", "hex"]), "shape": st.sampled_from(["rand", "rand", "rand", "intel-hex", "cbor-envelope", "text"]), "hash": st.sampled_from(list(HASHES)),
                                  "kname": st.sampled_from(["FWENC", "FWENC", "fw_enc.v2", "a.b.c", "key 1", "FWENC_APPLICATION_GEN1"])})
     gen = st.fixed_dictionaries({"sub": st.just("geninfo"), "size": size, "salt": st.integers(0, 10**6), "kid": kid, "kid_spelling": st.sampled_from(["dec", "dec", "hex"]), "kw": st.sampled_from(["direct", "direct", "aes-kw-256"]),
-                                 "eklen": st.sampled_from([0, 1, 24, 40])}).map(lambda s: {**s, "eklen": max(s["eklen"], 24) if s["kw"] == "aes-kw-256" else s["eklen"]})
+                                 "eklen": st.sampled_from([0, 1, 24, 40]), "ek_first": st.sampled_from([None, None, 0xF6, 0xF6, 0xF7, 0x00, 0xA0, 0x40, 0x60, 0xFF])}).map(lambda s: {**s, "eklen": max(s["eklen"], 24) if s["kw"] == "aes-kw-256" else s["eklen"]})
     return st.one_of(enc, enc, gen)
 
 
@@ -395,7 +423,7 @@ def replay(ctx, check, case):
 def finalize(ctx, m, ev):
     c = m["counters"]
     ev["coverage"]["exhaustive_scope"] = "size x digest algorithm x key id grid (12 x 5 x 12, plus four sizes around 1 MiB x 5) enumerated completely; sequences sampled"
-    need = ["sub:encrypt", "sub:geninfo", "route:cli", "route:lib", "reused-output-dir", "size:0", "size:65537", "kw:aes-kw-256", "kw:direct", "key-name-with-dot", "key:all-hex-digits", "key:edge-blank-or-nul", "encryptor-reused:aes-kw-256->direct"] + [f"hash:{h}" for h in HASHES]
+    need = ["sub:encrypt", "sub:geninfo", "route:cli", "route:lib", "reused-output-dir", "size:0", "size:65537", "kw:aes-kw-256", "kw:direct", "key-name-with-dot", "key:all-hex-digits", "key:edge-blank-or-nul", "encryptor-reused:aes-kw-256->direct", "plaintext:intel-hex", "plaintext:cbor-envelope", "wrapped-key-first-byte:f6"] + [f"hash:{h}" for h in HASHES]
     for n in need:
         if not c.get(n):
             raise boot.HarnessError(f"interesting class {n} is empty")
